@@ -9,8 +9,8 @@ Lemma is_tx_ref e pgn : is_tx e pgn = ref_is_tx e pgn.
 Proof. reflexivity. Qed.
 Lemma is_proprietary_ref p : is_proprietary p = ref_proprietary p.
 Proof.
-  unfold is_proprietary, is_proprietary_fast_packet, ref_proprietary.
-  destruct (p =? 126720), (130816 <=? p), (p <=? 131071), (p =? 61184), (65280 <=? p), (p <=? 65535); reflexivity.
+  (* whatever boolean shape the translator read from the source: both sides are range tests on p *)
+  unfold is_proprietary, is_proprietary_fast_packet, ref_proprietary. lia.
 Qed.
 Lemma has_handler_not_proprietary p : has_handler p = true -> ref_proprietary p = false.
 Proof.
